@@ -36,6 +36,10 @@ package heapq
 //@ pred trk(q *Queue[T], m int) := isReporter(q.move) ==> distinct(q) && (forall j int :: {q.data[j]} m <= j && j < len(q.data) ==> rep[key(q.data[j])] == j)
 //@ pred minimal(q *Queue[T], v T) := forall j int :: {q.data[j]} 0 <= j && j < len(q.data) ==> ord(q.cmp, v, q.data[j]) <= 0
 //@
+// bagExt: two arrays that hold the same multiset on [lo, m) and agree element by element on [m, H) hold the same
+// multiset on [lo, h) for every h up to H. Proved where it is applied, by induction on h from the defining equation
+// of a range multiset (bagstep).
+//@ lemma bagExt(A gmap[int]T, B gmap[int]T, lo int, m int, H int) by induction on h with bagstep(A, lo, h), bagstep(B, lo, h), abag(A, lo, h - 1), abag(B, lo, h - 1): 0 <= lo && lo <= m && abag(A, lo, m) == abag(B, lo, m) && (forall i int :: {A[i]} m <= i && i < H ==> A[i] == B[i]) ==> forall h int :: {abag(A, lo, h)} m <= h && h <= H ==> abag(A, lo, h) == abag(B, lo, h)
 //@ lemma rootMin(q *Queue[T]) by induction on j with q.data[up(j)]: heapOK(q) ==> forall j int :: {q.data[j]} 0 <= j && j < len(q.data) ==> le(q, 0, j)
 //@
 //@ func New
@@ -261,13 +265,19 @@ package heapq
 //@   role cmp ord
 //@   ensures outside: unchanged_outside(vs)
 //@   ensures [C05] sorted: forall a int, b int :: {vs[a], vs[b]} 0 <= a && a < b && b < len(vs) ==> ord(cmp, vs[a], vs[b]) <= 0
+//@   ensures [C05] permutation: bag(vs) == old(bag(vs))
 //@   modifies elems(vs), rep
 //@   loop 1: invariant frame: q != nil && fresh(q) && q.data.base == vs.base && q.data.off == vs.off && len(q.data) <= len(vs) && unchanged_outside(vs) && other_arrays_unchanged(vs)
 //@   loop 1: invariant [C05] heap: heapOK(q) && q.cmp == rcmp
 //@   loop 1: invariant [C05] tail: forall a int, b int :: {vs[a], vs[b]} len(q.data) <= a && a < b && b < len(vs) ==> ord(cmp, vs[a], vs[b]) <= 0
 //@   loop 1: invariant [C05] bound: forall j int, a int :: {vs[j], vs[a]} 0 <= j && j < len(q.data) && len(q.data) <= a && a < len(vs) ==> ord(cmp, vs[j], vs[a]) <= 0
+//@   loop 1: invariant [C05] perm: bag(vs) == old(bag(vs))
 //@   loop 1: invariant [C06] tracked: trk(q, 0)
 //@   loop 1: decreases len(q.data)
+//@   at loop 1 head: ghost A0 = snap(vs)
+//@   at loop 1 head: ghost n0 = len(q.data)
 //@   at after "q.Pop()": apply [C05] rootMin(q)
 //@   at after "q.Pop()": assert [C05] len(q.data) < len(vs) && vs[len(q.data)] == backing(q.data, len(q.data)) && forall b int :: {vs[b]} len(q.data) < b && b < len(vs) ==> ord(cmp, vs[len(q.data)], vs[b]) <= 0
 //@   at after "q.Pop()": assert [C05] forall j int :: {vs[j]} 0 <= j && j < len(q.data) ==> ord(cmp, vs[j], vs[len(q.data)]) <= 0
+//@   at after "q.Pop()": assert [C05] bagstep(snap(vs), addr(vs, 0), addr(vs, n0)) && abag(snap(vs), addr(vs, 0), addr(vs, n0)) == abag(A0, addr(vs, 0), addr(vs, n0))
+//@   at after "q.Pop()": apply [C05] bagExt(snap(vs), A0, addr(vs, 0), addr(vs, n0), addr(vs, len(vs)))
